@@ -97,7 +97,7 @@ def cases(tier: str, rng: random.Random):
         add("mov", [a, b], None, kind="mov")
     nd = [(n, d) for d in range(0, 9) for n in ({0, 1, 2, 3, 2**d, 2**(d + 1) - 1, 2**(d + 1), 255} if tier == "quick" else range(256))]
     nd += [(n, d) for d in (9, 16, 20) for n in (1, 3, 255)]
-    nd += [(rng.randrange(256), rng.randrange(0, 21)) for _ in range(300 if tier == "quick" else 3000)]
+    nd += [(rng.randrange(256), rng.randrange(0, 21)) for _ in range(300 if tier == "quick" else 10000)]
     nd += [(1, 21), (255, 40), (128, 255), (6, 100), (0, 200)]            # tiny: must pass through literally
     for mn in ROT:
         for k, (n, d) in enumerate(sorted(set(nd))):
